@@ -142,9 +142,17 @@ static void poison_slack(S o) {
     for (k = o->len + 1; k < o->size; k++) o->s[k] = (char) pat[(step_no + (unsigned long) k) % sizeof(pat)];
 }
 
+static int quiet;       /* inside a burst (<op>_n): check + poison after every call, build the token only after the last */
 static const char *project(vh_sb *state) {
     int i; const char *inv;
     step_no++;
+    if (quiet) {
+        for (i = 0; i < 2; i++) if (slot[i]) {
+            if ((inv = check_obj(slot[i], i ? "b" : "a"))) return inv;
+            poison_slack(slot[i]);
+        }
+        return NULL;
+    }
     sb_putc(state, '{');
     for (i = 0; i < 2; i++) {
         sb_puts(state, i ? ",b={live=" : "a={live=");
@@ -235,10 +243,24 @@ static unsigned char *gen_content(long n, long nl) {
 }
 
 /* ---- steps ------------------------------------------------------------------------------------------------------------ */
-static void vh_begin(void) { slot[0] = slot[1] = NULL; sb_reset(&last_state); sb_puts(&last_state, "{a={live=F,s=[]},b={live=F,s=[]}}"); }
+/* Heap balance of our own for record mode (common.h's is switched off there with VH_NO_HEAP because the token buffers
+ * grow with the texts): live heap minus the capacities of the three token buffers must be the same at the end of a
+ * script as at its first step.  Enabled with C01_OWN_HEAP=1. */
+static int own_heap, preset_errno;
+static vh_sb *g_ret, *g_state;
+static long own_h0; static int own_h0_set;
+static long own_level(void) {
+    return (long) vh_heap() - (long) ((g_ret ? g_ret->cap : 0) + (g_state ? g_state->cap : 0) + last_state.cap);
+}
+static void vh_begin(void) {
+    slot[0] = slot[1] = NULL; sb_reset(&last_state); sb_puts(&last_state, "{a={live=F,s=[]},b={live=F,s=[]}}");
+    own_h0_set = 0;
+}
 static void vh_end(void) {
     int i;
     for (i = 0; i < 2; i++) if (slot[i]) { V->del(slot[i]); slot[i] = NULL; }
+    if (own_heap && own_h0_set && own_level() != own_h0)
+        printf("X %ld %d heap end exp=%ld got=%ld\n", vh_cur_sid, vh_cur_step, own_h0, own_level());
 }
 
 static void put_sub(vh_sb *ret, int ok, const unsigned char *p, size_t n) {
@@ -249,13 +271,13 @@ static void put_sub(vh_sb *ret, int ok, const unsigned char *p, size_t n) {
 
 #define OP(s) (!strcmp(op, s))
 #define ARG(k) (st->args[k])
-static const char *vh_step(const vh_step_t *st, vh_sb *ret, vh_sb *state) {
+static const char *step1(const vh_step_t *st, vh_sb *ret, vh_sb *state) {
     const char *op = st->op, *inv;
     int me = 0, re = 0, isnew = 0;
     S self, other;
     unsigned char *p = NULL; size_t n = 0;
 
-    if (wiring_msg) return wiring_msg;
+    if (preset_errno) errno = preset_errno;      /* adversarial prelude: stale errno from "an earlier call" */
     if (op[0] == 'b' && op[1] == '_') { me = 1; op += 2; }
     self = slot[me]; other = slot[1 - me];
 
@@ -277,6 +299,13 @@ static const char *vh_step(const vh_step_t *st, vh_sb *ret, vh_sb *state) {
             p = vh_bytes(ARG(0), &n, 0);
             if (isnew) self = V->new_from_buff((spif_charptr_t) p, (spif_stridx_t) vh_int(ARG(1)));
             else r = r && V->init_from_buff(self, (spif_charptr_t) p, (spif_stridx_t) vh_int(ARG(1)));
+        } else if (OP("_from_buff_gen")) {       /* args m size: a size-byte buffer holding m generated characters, then NULs */
+            size_t m = (size_t) vh_int(ARG(0)), sz = (size_t) vh_int(ARG(1));
+            unsigned char *g = gen_content((long) m, 0);
+            p = (unsigned char *) calloc(sz ? sz : 1, 1);
+            memcpy(p, g, m < sz ? m : sz); free(g);
+            if (isnew) self = V->new_from_buff((spif_charptr_t) p, (spif_stridx_t) sz);
+            else r = r && V->init_from_buff(self, (spif_charptr_t) p, (spif_stridx_t) sz);
         } else if (OP("_from_buff_null")) {
             if (isnew) self = V->new_from_buff(NULL, (spif_stridx_t) vh_int(ARG(0)));
             else r = r && V->init_from_buff(self, NULL, (spif_stridx_t) vh_int(ARG(0)));
@@ -344,6 +373,12 @@ static const char *vh_step(const vh_step_t *st, vh_sb *ret, vh_sb *state) {
     else if (OP("sprintf_s")) {
         unsigned char *f = vh_bytes("[37,115]", NULL, 1);       /* "%s" */
         p = vh_bytes(ARG(0), &n, 1); sb_bool(ret, V->sprintf(self, (spif_charptr_t) f, (char *) p)); free(f);
+    }
+    else if (OP("sprintf_s_gen")) {           /* "%s" with a generated argument of n characters (long outputs) */
+        unsigned char *f = vh_bytes("[37,115]", NULL, 1);
+        long gn = vh_int(ARG(0));
+        p = gen_content(gn, 0); p[gn] = 0;
+        sb_bool(ret, V->sprintf(self, (spif_charptr_t) f, (char *) p)); free(f);
     }
     else if (OP("sprintf_d")) {
         unsigned char *f = vh_bytes("[37,100]", NULL, 1);       /* "%d" */
@@ -413,11 +448,53 @@ static const char *vh_step(const vh_step_t *st, vh_sb *ret, vh_sb *state) {
 
 out:
     if ((inv = project(state))) return inv;
+#ifdef VH_ASAN
+    if (own_heap && own_h0_set) {      /* per-call heap account: everything allocated since the script began belongs to a live string */
+        long owned = 0; int i;
+        for (i = 0; i < 2; i++) if (slot[i]) owned += (long) sizeof(*slot[i]) + (slot[i]->s ? (long) __sanitizer_get_allocated_size(slot[i]->s) : 0);
+        if (own_level() - own_h0 != owned) {
+            snprintf(invmsg, sizeof(invmsg), "heap:%ld_bytes_allocated_but_%ld_owned_by_the_live_strings", own_level() - own_h0, owned);
+            return invmsg;
+        }
+    }
+#endif
+    if (quiet) return NULL;
     if (st->exp_state[0] == '?' && st->exp_state[1] == 0) {       /* record mode: "=" when the projection did not change */
         if (!strcmp(state->p, last_state.p)) { sb_reset(state); sb_putc(state, '='); }
         else { sb_reset(&last_state); sb_puts(&last_state, state->p); }
     }
     return NULL;
+}
+
+/* "<op>_n k args..." = k consecutive calls of <op> args...; representation invariants are checked and the slack is
+ * poisoned after every call, the return values are and-ed, the projection is emitted after the last call. */
+static const char *vh_step(const vh_step_t *st, vh_sb *ret, vh_sb *state) {
+    size_t n = strlen(st->op);
+    const char *inv = NULL;
+    if (wiring_msg) return wiring_msg;
+    g_ret = ret; g_state = state;
+    if (!own_h0_set) { own_h0 = own_level(); own_h0_set = 1; }
+    if (n > 2 && !strcmp(st->op + n - 2, "_n")) {
+        static char base[64];
+        vh_step_t one = *st;
+        long k = vh_int(st->args[0]), i; int all = 1, j;
+        if (n - 2 >= sizeof(base) || st->nargs < 1) return "script_error_burst";
+        memcpy(base, st->op, n - 2); base[n - 2] = 0;
+        one.op = base; one.nargs = st->nargs - 1;
+        for (j = 0; j < one.nargs; j++) one.args[j] = st->args[j + 1];
+        if (k <= 0) { quiet = 0; sb_bool(ret, 1); return project(state); }
+        for (i = 0; i < k && !inv; i++) {
+            quiet = (i < k - 1);
+            sb_reset(ret); sb_reset(state);
+            inv = step1(&one, ret, state);
+            if (!inv && strcmp(ret->p, "T")) all = 0;
+        }
+        quiet = 0;
+        if (inv) return inv;
+        sb_reset(ret); sb_bool(ret, all);
+        return NULL;
+    }
+    return step1(st, ret, state);
 }
 
 int main(int argc, char **argv) {
@@ -428,6 +505,8 @@ int main(int argc, char **argv) {
     libast_set_program_name("str_replay");
     DEBUG_LEVEL = 0;
     sb_need(&last_state, 1 << 16);
+    own_heap = getenv("C01_OWN_HEAP") != NULL;
+    preset_errno = getenv("C01_ERRNO") ? atoi(getenv("C01_ERRNO")) : 0;
     wiring_msg = check_wiring();
     if (wiring_msg) wiring_msg = strdup(wiring_msg);
     return vh_main(argc, argv, 2);
